@@ -24,7 +24,7 @@ from ..drivers import scanmodel as sm, watchdog
 INVS = ['H_YamlErrorOnly', 'H_Terminates', 'H_TokenMarks', 'H_ErrorMarks', 'H_TokenGrammar', 'H_Monotone', 'L_Sane']
 # rows of FocusTable in spec/Scanner.tla (prefix, alphabet and the two bounds of each focus are defined there)
 FOCUSES = ['struct', 'struct2', 'block', 'indic', 'breaks', 'docs', 'dquote', 'escape', 'hex', 'squote', 'yamldir', 'dir', 'tagdir', 'tag',
-           'verbatim', 'literal', 'folded', 'seqlit', 'mapblock', 'anchors', 'longkey', 'flowkeys', 'cont']
+           'verbatim', 'literal', 'folded', 'seqlit', 'mapblock', 'anchors', 'longkey', 'flowkeys', 'cont', 'numbers', 'indentless']
 DESIGN = ['dstruct', 'dindic']            # design check (Fine = TRUE): one step per method, every action must fire
 FETCHERS = ['StreamEnd', 'Directive', 'DocumentStart', 'DocumentEnd', 'FlowSequenceStart', 'FlowMappingStart',
             'FlowSequenceEnd', 'FlowMappingEnd', 'FlowEntry', 'BlockEntry', 'Key', 'Value', 'Alias', 'Anchor', 'Tag',
@@ -81,12 +81,35 @@ def site_of(exc, pkgdir):
 ENTRIES = ('scan', 'parse', 'compose_all')
 
 
-def make_forms(text, raw, extra_forms=False, rnd=None):
-    """delivery forms of one input -> [(form, factory)] ; text: str or None, raw: bytes or None"""
+class ShortReads:
+    """a stream whose read(n) returns fewer units than asked for, following a fixed (seeded) schedule of sizes; the
+    empty str / bytes at the end.  Chunk boundaries therefore fall inside every kind of token."""
+
+    def __init__(self, data, sizes):
+        self.data, self.sizes, self.pos, self.i = data, sizes, 0, 0
+
+    def read(self, n=-1):
+        if self.pos >= len(self.data):
+            return self.data[:0]
+        k = self.sizes[self.i % len(self.sizes)]
+        self.i += 1
+        if n is not None and n >= 0:
+            k = min(k, n)
+        chunk = self.data[self.pos:self.pos + k]
+        self.pos += k
+        return chunk
+
+
+def make_forms(text, raw, extra_forms=False, rnd=None, kmax=3):
+    """delivery forms of one input -> [(form, factory)] ; text: str or None, raw: bytes or None.
+    short-*: streams with seeded short reads of 1..kmax units (needs rnd)"""
     forms = []
+    sizes = [rnd.randrange(1, kmax + 1) for _ in range(7)] if rnd is not None else None
     if text is not None:
         forms.append(('str', lambda: text))
         forms.append(('stream-str', lambda: io.StringIO(text)))
+        if sizes:
+            forms.append(('short-str', lambda: ShortReads(text, sizes)))
         try:
             b = text.encode('utf-8')
         except UnicodeEncodeError:
@@ -94,23 +117,30 @@ def make_forms(text, raw, extra_forms=False, rnd=None):
         if b is not None and raw is None:
             forms.append(('bytes', lambda: b))
             forms.append(('stream-bytes', lambda: io.BytesIO(b)))
+            if sizes:
+                forms.append(('short-bytes', lambda: ShortReads(b, sizes)))
             if extra_forms:
                 enc = ('utf-16-le', b'\xff\xfe') if (rnd.random() < 0.5) else ('utf-16-be', b'\xfe\xff')
                 b16 = enc[1] + text.encode(enc[0])
                 forms.append(('bytes-' + enc[0], lambda: b16))
+                forms.append(('short-bytes-' + enc[0], lambda: ShortReads(b16, sizes)))
     if raw is not None:
         forms.append(('bytes', lambda: raw))
         forms.append(('stream-bytes', lambda: io.BytesIO(raw)))
+        if sizes:
+            forms.append(('short-bytes', lambda: ShortReads(raw, sizes)))
     return forms
 
 
-def observe(yaml, pkgdir, text, raw, entries=ENTRIES, extra_forms=False, rnd=None, only_forms=None):
+def observe(yaml, pkgdir, text, raw, entries=ENTRIES, extra_forms=False, rnd=None, only_forms=None, kmax=3):
     """-> list of (record, meta): one record per entry point x delivery form x back-end"""
     out = []
-    for form, mk in make_forms(text, raw, extra_forms, rnd):
+    for form, mk in make_forms(text, raw, extra_forms, rnd, kmax):
         if only_forms and form not in only_forms:
             continue
         sample = mk()
+        if isinstance(sample, ShortReads):
+            sample = sample.data
         if isinstance(sample, (bytes, io.BytesIO)):
             rawb = sample if isinstance(sample, bytes) else sample.getvalue()
             dec = decode_like_reader(rawb)
@@ -207,8 +237,9 @@ def replay_state(yaml, pkgdir, st, nrep, tier, res, bag):
         if k == 0:
             obs = observe(yaml, pkgdir, text, None, only_forms=('str', 'bytes', 'stream-str'))
         else:
-            obs = observe(yaml, pkgdir, text, None, extra_forms=True, rnd=rnd, entries=('scan', 'compose_all'),
-                          only_forms=('stream-bytes', 'bytes-utf-16-le', 'bytes-utf-16-be'))
+            # streams with short reads (1..3 units: a chunk boundary inside every token of these short inputs), UTF-16
+            obs = observe(yaml, pkgdir, text, None, extra_forms=True, rnd=rnd, kmax=3,
+                          only_forms=('short-str', 'short-bytes', 'short-bytes-utf-16-le', 'short-bytes-utf-16-be'))
         res['runs'] += len(obs)
         short = text if len(text) <= 60 else text[:60] + '...(%d)' % len(text)
         for rec, meta in obs:
@@ -253,6 +284,12 @@ def mutation_symbols():
             out.append(('"\\' + r + '"') if s in ('X2', 'U4', 'U4s', 'U8', 'U8s', 'U8big', 'U8huge') else r)
             if s in ('X2', 'U4', 'U4s', 'U8', 'U8s', 'U8big', 'U8huge'):
                 out.append('\\' + r)
+    # what int() tolerates but the scanner's own digit tests must not: sign, underscore, blank, non-ASCII digit - in every place
+    # where the scanner converts digits (URI escapes, \x \u \U escapes, %YAML version, block scalar indentation indicator)
+    lenient = ['-1', '+1', ' 1', '1 ', '1_', '_1', '1_0', '\uff11\uff12', '\u0661', '-f', '+A']
+    for pre, post in (('%', ''), ('!%', ' x'), ('!<%', '> x'), ('"\\x', '"'), ('"\\u00', '"'), ('"\\U000000', '"'), ('%YAML ', '.1\n--- x'),
+                      ('%YAML 1.', '\n--- x'), ('|', '\n x'), ('>-', '\n x'), ('%TAG !e! tag:%', '\n--- !e!x y')):
+        out += [pre + b + post for b in lenient]
     out += ['%YAML 1.1\n', '%YAML 1.2\n', '%YAML 2.0\n', '%TAG ! tag:x,2000:\n', '%TAG !e! tag:e,2000:\n', '%FOO bar\n', '---', '...',
             '--- ', '\n--- ', '\n...\n', '&a ', '*a ', '!t ', '!!str ', '!<x> ', '!e!x ', '|\n ', '>-\n ', '|2+\n', '\r\n', ': ', '- ',
             '? ', ', ', '\\x', '\\u', '\\U', '\ud800', '\udfff', '"\\', '\\\n', '# c\n', '\t', '<<: ', '%', '!<', '!<%', '%4', '|0', '|10', '!%00', '%00', '!<%00>']
@@ -303,6 +340,38 @@ def corpus_items(tier, rnd):
             for pad in range(per):
                 t = '#' * pad + brk + (body + brk) * (13000 // per)
                 items.append(('long-%d-%r-%d' % (bi, brk, pad), t, None))
+    bodies2 = ['# c c', 'k: v # c', '%FOO b', '|  # c'] if tier == 'quick' else ['# c c', 'k: v # c', '%FOO b', '|  # c', '- &a !t x', "- 'q' : \"d\""]
+    for bi, body in enumerate(bodies2):                              # the same for lines made of comments / directives / properties
+        for brk in ('\n', '\r\n'):
+            per = len(body) + len(brk)
+            for pad in range(0, per, 1 if tier != 'quick' else 2):
+                t = '#' * pad + brk + (body + brk) * (13000 // per)
+                items.append(('long-x%d-%r-%d' % (bi, brk, pad), t, None))
+    # one long lexeme of every token kind (longer than two reader blocks), so that a block border falls inside it
+    N = 9000
+    lexemes = [('comment', '# ' + 'c' * N), ('comment-after', 'a: b # ' + 'c' * N), ('reserved-directive', '%FOO ' + 'p' * N + '\n--- a'),
+               ('directive-comment', '%YAML 1.1 # ' + 'c' * N + '\n--- a'), ('tag-directive', '%TAG !e! tag:' + 'x' * N + '\n--- !e!a b'),
+               ('plain', 'w' * N), ('plain-words', 'word ' * (N // 5)), ('single', "'" + 's' * N + "'"), ('double', '"' + 'd' * N + '"'),
+               ('double-escapes', '"' + '\\x41\\n' * (N // 6) + '"'), ('anchor', '&' + 'a' * N + ' x'), ('alias', '- &a x\n- *' + 'a' * N),
+               ('tag', '!' + 't' * N + ' x'), ('verbatim-tag', '!<' + 't' * N + '> x'), ('tag-escapes', '!' + '%41' * (N // 3) + ' x'),
+               ('literal', '|\n ' + 'l' * N), ('literal-lines', '|\n' + ' l\n' * (N // 3)), ('header-comment', '| # ' + 'c' * N + '\n x'),
+               ('folded', '>\n ' + 'f ' * (N // 2)), ('spaces', 'a:' + ' ' * N + 'b'), ('blank-lines', 'a:\n' + '\n' * N + ' b'),
+               ('key', 'k' * N + ': v'), ('flow', '[' + 'a, ' * (N // 3) + ']'), ('entries', '- a\n' * (N // 4)),
+               ('document-markers', '--- a\n...\n' * (N // 10)), ('crlf', 'a: b\r\n' * (N // 6)), ('bom', '\ufeff' + 'a ' * (N // 2))]
+    for name, t in lexemes:
+        items.append(('lex-' + name, t, None))
+    # long numbers of every base / numeric form followed by one foreign character (every implicit resolver sees them in compose)
+    digits = {'0x': '0123456789abcdefABCDEF', '0X': '0123456789abcdef', '0b': '01', '0o': '01234567', '0': '01234567', '': '0123456789',
+              '-': '0123456789', '+': '0123456789', '1.': '0123456789', '.': '0123456789', '1e': '0123456789', '1e+': '0123456789',
+              '1:': '012345', '2001-01-01T': '0123456789', '2001-': '0123456789', '0x_': '0123456789abcdef_', '1_': '0123456789_',
+              '1:59:': '0123456789:', '.inf': 'f', '~': '~', 'tru': 'e', '<': '<', '=': '='}
+    nlen = (40, 200) if tier == 'quick' else (24, 40, 64, 200, 1000)
+    for pre, ds in digits.items():
+        for ln in nlen:
+            run = ''.join(rnd.choice(ds) for _ in range(ln))
+            for suf in ('', 'z', '-rc', '_', ':', '.', 'g', ' #c'):
+                ctx = rnd.choice(['%s', '- %s', 'k: %s', '[%s]', '%s: v', '{%s: 1}'])
+                items.append(('num-%s%d%s' % (pre, ln, suf), ctx % (pre + run + suf), None))
     # seeded random byte strings and random strings over the concrete alphabet
     nrand = 1500 if tier == 'quick' else 40000
     pool = [r for s, rs in sm.REPS.items() if s not in ('L', 'DBIG') for r in rs]
@@ -332,9 +401,15 @@ def corpus_work(ctx, chunk):
     bag = Bag()
     runs = 0
     for name, text, raw in chunk:
-        long = name.startswith('long-')
-        obs = observe(yaml, pkgdir, text, raw, only_forms=('stream-str', 'stream-bytes') if long else None,
-                      entries=('scan', 'compose_all') if long else ENTRIES)
+        rnd = random.Random(zlib.crc32(('%d|%s' % (SEED, name)).encode()))
+        if name.startswith(('long-', 'lex-')):
+            # whole-block reads (the reader's own 4096 blocks) and short reads of 1000..3000 units
+            obs = observe(yaml, pkgdir, text, raw, only_forms=('stream-str', 'stream-bytes', 'short-str', 'short-bytes'),
+                          entries=('scan', 'compose_all'), rnd=rnd, kmax=3000)
+        else:
+            # short reads of 1..kmax units instead of one read that returns everything
+            obs = observe(yaml, pkgdir, text, raw, only_forms=('str', 'bytes', 'short-str', 'short-bytes'), rnd=rnd,
+                          kmax=rnd.choice([1, 2, 5, 17, 64]) if len(text if text is not None else raw) < 400 else rnd.choice([17, 64, 500]))
         runs += len(obs)
         shown = text if text is not None else raw
         for rec, meta in obs:
